@@ -633,17 +633,28 @@ void checkOracles(const Desc& d, const Obs& o, RunResult& r) {
                     want.push_back(m);
                 }
             }
+            // The property speaks of suite and test starts and finishes, ignored flags and failures: other service messages (and further attributes of
+            // these six) are the output's own business as long as they decode. The message attribute of a failure is worded by the output; what must come
+            // back from it is the location (file:line of the failure, and the test's file when the failure lies elsewhere).
+            Vec<TcMsg> all; all.swap(msgs);
+            for (size_t i = 0; i < all.size(); i++) { const Str& n = all[i].name; if (n == "testSuiteStarted" || n == "testSuiteFinished" || n == "testStarted" || n == "testFinished" || n == "testFailed" || n == "testIgnored") msgs.push_back(all[i]); }
             if (want.size() != msgs.size()) r.fail("C20", "stream", sigOf("what", "message count"), sfmt("%zu service messages decoded, %zu expected", msgs.size(), want.size()));
             for (size_t i = 0; i < want.size() && i < msgs.size(); i++) {
                 if (want[i].name != msgs[i].name) { r.fail("C20", "stream", sigOf("what", "message order"), sfmt("message %zu is %s, expected %s", i, msgs[i].name.c_str(), want[i].name.c_str())); break; }
-                if (want[i].attrs.size() != msgs[i].attrs.size()) { r.fail("C20", "stream", sigOf("what", "attribute count"), sfmt("message %zu (%s)", i, want[i].name.c_str())); break; }
                 bool stop = false;
                 for (size_t a = 0; a < want[i].attrs.size(); a++) {
-                    if (want[i].attrs[a].first != msgs[i].attrs[a].first) { r.fail("C20", "stream", sigOf("what", "attribute name"), sfmt("message %zu (%s)", i, want[i].name.c_str())); stop = true; break; }
+                    const Str* got = 0; for (size_t g = 0; g < msgs[i].attrs.size(); g++) if (msgs[i].attrs[g].first == want[i].attrs[a].first) { got = &msgs[i].attrs[g].second; break; }
+                    if (!got) { r.fail("C20", "stream", sigOf("what", "attribute name"), sfmt("message %zu (%s) has no attribute %s", i, want[i].name.c_str(), want[i].attrs[a].first.c_str())); stop = true; break; }
                     if (want[i].attrs[a].second == "*" && want[i].attrs[a].first == "duration") continue;
-                    if (want[i].attrs[a].second != msgs[i].attrs[a].second) {
+                    if (want[i].attrs[a].first == "message") {
+                        const FailRec* frp = 0; size_t nth = 0, k = 0; for (size_t w = 0; w <= i; w++) if (want[w].name == "testFailed") nth++;
+                        for (size_t e = 0; e < o.ev.size(); e++) if (o.ev[e].type == E_FAILURE) { if (++k == nth) { frp = &o.fails[(size_t)o.ev[e].op]; break; } }
+                        bool okm = frp && got->find(sfmt("%s:%zu", frp->file.c_str(), frp->line)) != Str::npos && (frp->testFile == frp->file || got->find(frp->testFile) != Str::npos);
+                        if (okm) continue;
+                    }
+                    if (want[i].attrs[a].second != *got) {
                         Json sg = Json::O(); sg.set("msg", Json::S(want[i].name)); sg.set("attr", Json::S(want[i].attrs[a].first));
-                        r.fail("C20", "value", sg, sfmt("message %zu %s.%s decodes to %s, original %s", i, want[i].name.c_str(), want[i].attrs[a].first.c_str(), Json::S(msgs[i].attrs[a].second).dump().c_str(), Json::S(want[i].attrs[a].second).dump().c_str()));
+                        r.fail("C20", "value", sg, sfmt("message %zu %s.%s decodes to %s, original %s", i, want[i].name.c_str(), want[i].attrs[a].first.c_str(), Json::S(*got).dump().c_str(), Json::S(want[i].attrs[a].second).dump().c_str()));
                         stop = true; break;
                     }
                 }
